@@ -386,7 +386,11 @@ J_dur_op(e) ==
        [] o = "floordiv_int" -> R(lab, CmpDur(p, D3FloorDivInt(x.r3, e.a.n)) \o TypeDur(p, TRUE))
        [] o \in {"floordiv_dur", "mod_dur", "divmod_dur", "truediv_dur"} ->
             LET y == e.pre[2] IN
-            IF ~Comparable(x.r3, y.r3) \/ D3Sign(y.r3) = 0 THEN R(lab \o <<"out-of-limb-range">>, <<>>)
+            \* the statement speaks of Durations without years or months: such operands are executed (they are part of a
+            \* program's history) but not judged
+            IF (y.k = "dur" /\ (y.years # 0 \/ y.months # 0)) \/ (x.k = "dur" /\ (x.years # 0 \/ x.months # 0))
+            THEN R(lab \o <<"years-months-operand">>, <<>>)
+            ELSE IF ~Comparable(x.r3, y.r3) \/ D3Sign(y.r3) = 0 THEN R(lab \o <<"out-of-limb-range">>, <<>>)
             ELSE LET q == QuoOf(x.r3, y.r3)  rm == RemOf(x.r3, y.r3) IN
                  R(lab,
                    IF p.k = "exc" THEN << <<"unexpected-exception", p.names>> >>
@@ -433,6 +437,7 @@ J_iv_arith(e) ==
             [] o = "truediv_int" -> R(lab, CmpDur(p, D3DivRHE(el, e.a.n)) \o TypeDur(p, TRUE))
             [] o \in {"add_td", "radd_td"} -> R(lab, CmpDur(p, D3Add(el, td)) \o TypeDur(p, TRUE))
             [] o = "sub_td" -> R(lab, CmpDur(p, D3Sub(el, td)) \o TypeDur(p, TRUE))
+            [] o = "rsub_td" -> R(lab, CmpDur(p, D3Sub(td, el)))        \* timedelta - Interval: the native difference (type not stated)
             [] o = "totals" ->
                  R(lab \o <<"plain", B(plain)>>,
                    IF p.k = "exc" THEN << <<"unexpected-exception", p.names>> >>
